@@ -398,6 +398,13 @@ type GenOpts struct {
 	MaxCommits int
 	MaxTags    int
 	MaxEdits   int
+	// TagChains > 0 adds, after the MaxTags independent tags, up to that many tag
+	// chains: an annotated tag of a commit (sometimes of a tree or blob) followed by
+	// 1-2 annotated tags each tagging the previous tag object. Zero keeps the draw
+	// sequence of callers that do not set it.
+	TagChains int
+	// MinTagChains is the least number of chains drawn (only with TagChains > 0).
+	MinTagChains int
 }
 
 // Gen draws a history: chains, merges (incl. criss-cross and octopus), new
@@ -474,5 +481,66 @@ func Gen(t *rapid.T, o GenOpts) Spec {
 		}
 		s.Tags = append(s.Tags, Tag{Kind: k, Idx: rapid.IntRange(0, n+2).Draw(t, "tagidx")})
 	}
+	if o.TagChains > 0 {
+		nch := rapid.IntRange(min(o.MinTagChains, o.TagChains), o.TagChains).Draw(t, "ntagchains")
+		for i := 0; i < nch; i++ {
+			k := TagCommit
+			switch v := rapid.IntRange(0, 7).Draw(t, "chainbasek"); {
+			case v == 6:
+				k = TagTree
+			case v == 7:
+				k = TagBlob
+			}
+			// late commits are the ones a second-phase transfer still has to deliver
+			idx := rapid.IntRange(0, n-1).Draw(t, "chainbase")
+			if rapid.IntRange(0, 1).Draw(t, "chainlate") == 1 {
+				idx = n - 1 - rapid.IntRange(0, min(2, n-1)).Draw(t, "chainbaselate")
+			}
+			s.Tags = append(s.Tags, Tag{Kind: k, Idx: idx})
+			for j, l := 0, rapid.IntRange(1, 2).Draw(t, "chainlen"); j < l; j++ {
+				s.Tags = append(s.Tags, Tag{Kind: TagTag, Idx: len(s.Tags) - 1}) // Idx is taken modulo its own index: the previous tag
+			}
+		}
+	}
 	return s
+}
+
+// ChainBase follows tag index tip of the spec down to the first tag that does not
+// tag a tag and returns that tag's kind (TagCommit, TagTree, TagBlob) and, for
+// commits and trees, the commit index it resolves to (-1 for blobs or when the
+// history has no commits), the way Build resolves them.
+func ChainBase(s Spec, tip int) (kind, commit int) {
+	i := mod(tip, len(s.Tags))
+	for i > 0 && mod(s.Tags[i].Kind, 4) == TagTag {
+		i = mod(s.Tags[i].Idx, i)
+	}
+	kind = mod(s.Tags[i].Kind, 4)
+	if kind == TagTag {
+		kind = TagCommit // tag 0 cannot tag a tag: Build falls back to a commit
+	}
+	if kind == TagBlob || len(s.Commits) == 0 {
+		return kind, -1
+	}
+	return kind, mod(s.Tags[i].Idx, len(s.Commits))
+}
+
+// ChainTips returns, for every tag index of the spec that tags a tag and is not
+// itself tagged by a later tag (the outermost tag of a chain of length >= 2), that
+// index. It resolves indices the way Build does.
+func ChainTips(s Spec) []int {
+	inner := map[int]bool{}
+	nested := map[int]bool{}
+	for i, t := range s.Tags {
+		if mod(t.Kind, 4) == TagTag && i > 0 {
+			inner[mod(t.Idx, i)] = true
+			nested[i] = true
+		}
+	}
+	var out []int
+	for i := range s.Tags {
+		if nested[i] && !inner[i] {
+			out = append(out, i)
+		}
+	}
+	return out
 }
